@@ -7,8 +7,8 @@ fn lehmer_guess_dword(mut xbar: DoubleWord, mut ybar: DoubleWord) -> (Word, Word
         // non-negative and not larger than y for EVERY pair of operands with these leading double words; identity on failure
         leh_guess_post(xbar as int, ybar as int, ret.0 as int, ret.1 as int, ret.2 as int, ret.3 as int, SignedWord::MAX as int),
 @*/
-/*@[exact]
-        // exact Jebelean condition for both rows (variant `exact`: FAILS on the unchanged tree, see lib/leh_guess_lemmas.rs)
+/*@
+        // exact Jebelean condition for BOTH rows (the second one was `xbar - c` before the repair 0fb363c: genuine defect)
         leh_guess_exact(xbar as int, ybar as int, ret.0 as int, ret.1 as int, ret.2 as int, ret.3 as int),
 @*/
 {
@@ -33,7 +33,7 @@ fn lehmer_guess_dword(mut xbar: DoubleWord, mut ybar: DoubleWord) -> (Word, Word
             d > c, b + 1 >= a,
             b == 0 || (c >= a && d >= b) || xbar as int + a as int <= ybar as int - c as int,
     @*/
-    /*@[exact]
+    /*@
             b == 0 || (c >= a && d >= b && ybar as int + d as int <= xbar as int - b as int)
                 || (a >= c && b >= d && xbar as int + a as int <= ybar as int - c as int),
     @*/
